@@ -153,7 +153,8 @@ def gen_case(rng, quick, idx):
         while n_out + n_err > budget // k:
             n_out //= 2
             n_err //= 2
-        chans.append(dict(direction=rng.choice(("c2s", "s2c")), opened_by=rng.choice("ccs"), api=rng.choice(("send", "sendall")), n_out=n_out, n_err=n_err,
+        chans.append(dict(direction=rng.choice(("c2s", "s2c")), opened_by=rng.choice("ccs"), api=rng.choice(("send", "sendall")),
+                          reader_half_closed=rng.random() < 0.25, n_out=n_out, n_err=n_err,
                           maxread=rng.choice((1, 10, 1000, 40000, 1 << 20)) if n_out + n_err < 30000
                           else rng.choice((1000, 40000, 1 << 20)),
                           ptoggle=rng.choice((0, 0.02, 0.2)), end_combined=rng.random() < 0.4,
@@ -334,6 +335,11 @@ def run_case(ctx, case, rng, seedbase):
             w, r = (c, s) if spec["direction"] == "c2s" else (s, c)
             chans.append(Chan(i, w, r, spec, seedbase))
             chans[-1].c, chans[-1].s = c, s
+            if spec.get("reader_half_closed"):
+                r.shutdown_write()  # the reader has ended its own direction; it keeps reading what the peer sends
+                ctx.count("channels_with_reader_half_closed")
+                if spec["n_out"] + spec["n_err"] > (r.in_window_size or 0):
+                    ctx.count("half_closed_readers_receiving_more_than_a_window")
         p.link.set_latency(case["latency"])
         for ch in chans:
             sd = ch.spec["seeds"]
@@ -672,6 +678,87 @@ def run_combine_matrix(ctx, case, rng):
         p.close()
 
 
+def run_two_pumps(ctx, case, rng):
+    """stdout and stderr of ONE channel are written by two pump threads (sendall + sendall_stderr), both blocked on the
+    exhausted window; one adjust re-opens it and what follows stays under the reader's 10 % threshold, so no further
+    adjust comes.  Both streams must arrive complete."""
+    w = case["window"]
+    role = case["writer"]
+    p = pair.Pair(rng=rng, server_kw=dict(default_window_size=w) if role == "c" else {})
+    cm.watch(p.tc, p.rec, "c")
+    cm.watch(p.ts, p.rec, "s")
+    try:
+        if not p.start() or not p.auth():
+            ctx.inconclusive("handshake failed (two pumps)")
+            return
+        cm.diverge_ids(p, rng)
+        c, s = p.session(window_size=w if role == "s" else None)
+        x, y = (c, s) if role == "c" else (s, c)
+        out = cm.stream_bytes("tp/%s" % case["seed"], "out", w + case["k_out"])
+        err = cm.stream_bytes("tp/%s" % case["seed"], "err", case["k_err"])
+        x.settimeout(60)
+        cm.send_all(x, out[:w], random.Random(case["seed"]))
+        x.settimeout(None)
+        if x.out_window_size != 0 or not pair.wait_for(lambda: len(y.in_buffer) == w, 20, 0.002):
+            ctx.inconclusive("could not exhaust the window (two pumps)")
+            return
+        errs = []
+        ths = [threading.Thread(target=lambda: _try(errs, lambda: x.sendall(out[w:])), daemon=True, name="pump_out"),
+               threading.Thread(target=lambda: _try(errs, lambda: x.sendall_stderr(err)), daemon=True, name="pump_err")]
+        for t in ths:
+            t.start()
+        if not pair.wait_for(lambda: all("_wait_for_send_window" in " ".join(v) for v in cm.stacks_of(ths).values()), 30, 0.002):
+            ctx.inconclusive("pump threads did not both block on the window")
+            return
+        ctx.count("pump_threads_blocked_together", 2)
+        got_out = bytearray(y.recv(w))  # the whole window in one read: exactly one adjust
+        if len(got_out) != w:
+            ctx.inconclusive("reader could not take the whole window in one read")
+            return
+        rd = cm.PollReader(y, rng.getrandbits(32), 40000, keep=True).start()
+        SIG = "stream incomplete: a pump thread stays parked on a re-opened window while its stream never arrives"
+        end = time.monotonic() + 120
+        stuck = None
+        while time.monotonic() < end:
+            if rd.got["out"] >= case["k_out"] and rd.got["err"] >= case["k_err"] and not any(t.is_alive() for t in ths):
+                break
+            time.sleep(0.005)
+            alive = [t for t in ths if t.is_alive()]
+            if alive and p.link.quiescent(0.5) and rd.settle(5) and not y.recv_ready() and not y.recv_stderr_ready():
+                ok, st = cm.blocked_at_quiescence(alive, p.link, 1.0 if SIG in ctx.violations else ctx.pick(10, 20))
+                if ok and x.out_window_size > 0:
+                    stuck = (alive, st)
+                    break
+        p.wait_quiet(0.05, 5)
+        rd.settle()
+        rd.stop()
+        got_out += rd.data["out"]
+        got_err = bytes(rd.data["err"])
+        adj = p.msgs("c" if x is c else "s", "in", (cm.ADJUST,))
+        ctx.count("two_pump_cases")
+        if len(adj) == 1:
+            ctx.count("two_pump_cases_with_exactly_one_adjust")
+        desc = dict(case=case, read_out=len(got_out), read_err=len(got_err), want_out=len(out), want_err=len(err), errors=errs)
+        if stuck is not None:
+            ctx.violation(SIG, "%s is parked in the send-window wait with out_window_size=%d, link drained, reader idle; read "
+                          "%d/%d stdout and %d/%d stderr bytes" % ([t.name for t in stuck[0]], x.out_window_size, len(got_out),
+                                                                   len(out), len(got_err), len(err)), dict(desc, stacks=stuck[1]))
+            return
+        if any(t.is_alive() for t in ths) or errs:
+            ctx.inconclusive("two-pump transfer neither finished nor was provably stuck: %s" % errs)
+            return
+        if bytes(got_out) != out:
+            ctx.violation("stdout stream %s" % ("short" if len(got_out) < len(out) else "differs"),
+                          "stdout bytes read are not the bytes written (two pump threads)", desc)
+        if got_err != err:
+            ctx.violation("stderr stream %s" % ("short" if len(got_err) < len(err) else "differs"),
+                          "stderr bytes read are not the bytes written (two pump threads)", desc)
+        if bytes(got_out) == out and got_err == err:
+            ctx.count("two_pump_streams_complete", 2)
+    finally:
+        p.close()
+
+
 def run_close_race(ctx, case, rng):
     """The client close()s its channels while the server's exit-status + EOF + CLOSE are still in flight (the
     server->client direction is held or slow).  The status the server sent must still be reported."""
@@ -731,6 +818,13 @@ def run_close_race(ctx, case, rng):
 def run(ctx):
     cm.install()
     rng = ctx.rng
+    for i in range(ctx.pick(3, 16)):
+        j = i * ctx.nshards + ctx.shard
+        w = (32768, 40000, 65536)[j % 3]
+        case = dict(kind="two-pump-threads-one-adjust", writer="cs"[j % 2], window=w, k_out=(1, 300, w // 30)[j // 2 % 3],
+                    k_err=(1, 500, w // 30)[j // 6 % 3], seed=j)
+        ctx.guard(run_two_pumps, ctx, case, rng)
+        ctx.case(("c21-pumps", repr(case)), sample=case if i == 0 else None)
     for i in range(ctx.pick(4, 30)):
         j = i * ctx.nshards + ctx.shard
         writes = [(rng.choice(("out", "out", "err")), rng.choice((1, 100, 5000, 40000))) for _ in range(2 + j % 5)]
@@ -780,6 +874,11 @@ def run(ctx):
     ctx.require("window_limited_data_msgs", 40)
     ctx.require("statuses_arriving_after_own_close", 20)
     ctx.require("close_race_cases", 24)
+    ctx.require("channels_with_reader_half_closed", 20)
+    ctx.require("half_closed_readers_receiving_more_than_a_window", 5)
+    ctx.require("two_pump_cases", 18)
+    ctx.require("two_pump_cases_with_exactly_one_adjust", 16)
+    ctx.require("two_pump_streams_complete", 36)
     ctx.require("handler_kex_cases", 24)
     ctx.require("handler_writes_during_kex", 20)
     ctx.require("messages_queued_by_handler", 60)
